@@ -804,6 +804,11 @@ macro_rules! ext_mod {
                                     None => "unparsable".into(),
                                 }
                             }
+                            "g.serraw" => {
+                                let _o = annot_order(ext, i);
+                                let bytes = ser(&ext.graphs[i], t[2]).unwrap();
+                                String::from_utf8_lossy(&bytes).replace('\n', "|").replace(' ', "_")
+                            }
                             "g.roundtrip" => {
                                 let o = annot_order(ext, i);
                                 let bytes = ser(&ext.graphs[i], t[2]).unwrap();
